@@ -8,9 +8,11 @@
             expression): kinds of str(m), describe(), get_details(),
             str(MismatchError) for both verbosities, abstracted to
             Text | Dict | Raised cls | Other;
-     ITest  a real TestCase whose body is a sequence of assertThat / expectThat /
-            assert_that statements on matchers that match or mismatch with given
-            details, after some details were attached already. *)
+     ITest  a real TestCase whose setUp, test method, tearDown and cleanups are
+            sequences of assertThat / expectThat / assert_that statements on
+            matchers that match or mismatch with given details, and of statements
+            that raise (skip, failure, expected failure, unexpected success, error),
+            after some details were attached already. *)
 From Coq Require Export String.
 From TT Require Import Lib.Base Lib.Sort Model.TextRepr Model.Assertions.
 
@@ -19,12 +21,14 @@ Inductive okind := KText | KDict | KRaised (c : nat) | KOther.
 Inductive input :=
 | IRepr (isb : bool) (s : list N) (ml : option bool) (nonprint : list N)
 | IDesc (name : nat) (modelled : bool) (has_mismatch : bool)
-| ITest (pre : list detail) (steps : list step).
+| ITest (p : prog).
 
 Inductive obs :=
 | ORepr (out : list N) (evals_back : bool)
 | ODesc (kinds : list okind)
-| OTest (raised : list bool) (after_ran : bool) (oc : outcome) (details : list detail)   (* payload details only *)
+| OTest (raised : list (list bool))     (* per user function that ran, in order: did statement k raise *)
+        (after_ran : bool)              (* the outcome was reported after all of them had finished *)
+        (oc : outcome) (details : list detail)   (* payload details only *)
 | OBad.
 
 (* ---------- text_repr ---------- *)
@@ -50,21 +54,58 @@ Definition expected_kinds (has_mismatch : bool) : list okind :=
 
 (* ---------- assertThat / expectThat / assert_that ---------- *)
 Definition is_some {A} (o : option A) : bool := match o with Some _ => true | None => false end.
-Definition is_assert (k : akind) : bool := match k with ExpectThat => false | _ => true end.
-Definition attaches (k : akind) : bool := match k with AssertThatFn => false | _ => true end.
-Definition raises_step (s : step) : bool := is_assert (s_kind s) && is_some (s_mis s).
-(* statement k raises iff it is an assertion whose matcher mismatches; nothing runs after a raise *)
+Definition is_expect (k : akind) : bool := match k with ExpectThat => true | _ => false end.
+Definition is_raise (k : akind) : bool := match k with Raise _ => true | _ => false end.
+Definition attaches (k : akind) : bool := match k with AssertThat | ExpectThat => true | _ => false end.
+(* assertThat / assert_that raise exactly when match() returns a mismatch; expectThat never raises *)
+Definition raises_step (s : step) : bool :=
+  match s_kind s with
+  | AssertThat | AssertThatFn => is_some (s_mis s)
+  | ExpectThat => false
+  | Raise _ => true
+  end.
+(* statement k of a function raises iff ...; nothing of that function runs after a raise *)
 Fixpoint exp_raised (steps : list step) : list bool :=
   match steps with
   | [] => []
   | s :: r => if raises_step s then [true] else false :: exp_raised r
   end.
 Definition executed (steps : list step) : list step := firstn (length (exp_raised steps)) steps.
+
+(* the user functions that run, in order: when setUp raises, only the cleanups follow; otherwise the test
+   method, tearDown and the cleanups (last registered first) all run, whatever the earlier ones raised *)
+Definition setup_raises (p : prog) : bool := existsb raises_step (p_setup p).
+Definition phases (p : prog) : list (list step) :=
+  if setup_raises p then p_setup p :: rev (p_cleanups p)
+  else p_setup p :: p_body p :: p_teardown p :: rev (p_cleanups p).
+Definition executed_all (p : prog) : list step := flat_map executed (phases p).
+
 Definition mis_details (s : step) : list detail :=
   if attaches (s_kind s) then match s_mis s with Some ds => ds | None => [] end else [].
-Definition wanted (pre : list detail) (steps : list step) : list detail :=
-  pre ++ flat_map mis_details (executed steps).
-Definition any_mismatch (steps : list step) : bool := existsb (fun s => is_some (s_mis s)) (executed steps).
+Definition wanted (p : prog) : list detail := p_pre p ++ flat_map mis_details (executed_all p).
+
+(* some executed expectThat mismatched / some executed statement raised / ... other than a MismatchError *)
+Definition expect_failed (p : prog) : bool :=
+  existsb (fun s => is_expect (s_kind s) && is_some (s_mis s)) (executed_all p).
+Definition any_raise (p : prog) : bool := existsb raises_step (executed_all p).
+Definition explicit_raise (p : prog) : bool := existsb (fun s => is_raise (s_kind s)) (executed_all p).
+
+Definition outcome_eqb (a b : outcome) : bool :=
+  match a, b with
+  | Success, Success | Failure, Failure | Error, Error | Skip, Skip | ExpFailure, ExpFailure
+  | UnexpSuccess, UnexpSuccess | NoOutcome, NoOutcome => true
+  | _, _ => false
+  end.
+Definition failing (oc : outcome) : bool := match oc with Failure | Error => true | _ => false end.
+(* a mismatching expectThat makes the test fail, whatever else the test does - it skips, reaches an expected
+   failure, ... - before or afterwards; a test in which nothing raised and no expectation failed succeeds; a
+   test in which only MismatchErrors were raised is a failure; what is reported for other combinations of
+   exceptions is not this property's business (C03) *)
+Definition outcome_okb (p : prog) (oc : outcome) : bool :=
+  if expect_failed p then failing oc
+  else if negb (any_raise p) then outcome_eqb oc Success
+  else if negb (explicit_raise p) then outcome_eqb oc Failure
+  else true.
 
 Fixpoint prefix_str (p s : string) : bool :=
   match p, s with
@@ -86,64 +127,72 @@ Definition same_tokens (a b : list nat) : bool :=
   forallb (fun x => Nat.eqb (count_nat x a) (count_nat x b)) (a ++ b).
 Definition detail_eqb (a b : detail) : bool := String.eqb (fst a) (fst b) && Nat.eqb (snd a) (snd b).
 
-Definition details_okb (pre : list detail) (steps : list step) (od : list detail) : bool :=
-  let w := wanted pre steps in
+Definition details_okb (p : prog) (od : list detail) : bool :=
+  let w := wanted p in
   same_tokens (map snd od) (map snd w)                                   (* every detail is there, once *)
   && nodup_str (map fst od)                                              (* under names of their own *)
   && forallb (fun d => match base_of (snd d) w with
                        | Some base => derived (fst d) base
                        | None => false
                        end) od                                           (* derived from the requested name *)
-  && forallb (fun d => existsb (detail_eqb d) od) pre.                   (* earlier details keep their names *)
+  && forallb (fun d => existsb (detail_eqb d) od) (p_pre p).             (* earlier details keep their names *)
 
-Definition outcome_eqb (a b : outcome) : bool :=
-  match a, b with
-  | Success, Success | Failure, Failure | Error, Error | NoOutcome, NoOutcome => true
-  | _, _ => false
-  end.
-
-Definition test_okb (pre : list detail) (steps : list step)
-           (raised : list bool) (after_ran : bool) (oc : outcome) (od : list detail) : bool :=
-  list_eqb Bool.eqb raised (exp_raised steps)
+Definition test_okb (p : prog) (raised : list (list bool)) (after_ran : bool) (oc : outcome) (od : list detail) : bool :=
+  list_eqb (list_eqb Bool.eqb) raised (map exp_raised (phases p))
   && after_ran
-  && outcome_eqb oc (if any_mismatch steps then Failure else Success)
-  && details_okb pre steps od.
+  && outcome_okb p oc
+  && details_okb p od.
 
 Definition spec_okb (i : input) (o : obs) : bool :=
   match i, o with
   | IRepr isb s _ _, ORepr out eb => repr_okb isb s out eb
   | IDesc _ modelled hm, ODesc kinds => negb modelled || list_eqb okind_eqb kinds (expected_kinds hm)
-  | ITest pre steps, OTest raised after oc od => test_okb pre steps raised after oc od
+  | ITest p, OTest raised after oc od => test_okb p raised after oc od
   | _, _ => false
   end.
 
 (* ---------- readable form ---------- *)
 Definition Derived (n base : string) : Prop := n = base \/ exists rest, n = (base ++ "-" ++ rest)%string.
+Definition OutcomeOk (p : prog) (oc : outcome) : Prop :=
+  (expect_failed p = true -> oc = Failure \/ oc = Error)
+  /\ (expect_failed p = false -> any_raise p = false -> oc = Success)
+  /\ (expect_failed p = false -> any_raise p = true -> explicit_raise p = false -> oc = Failure).
 Definition Spec (i : input) (o : obs) : Prop :=
   match i, o with
   | IRepr isb s _ _, ORepr out eb => eb = true /\ eval_lit out = Some (isb, s)
   | IDesc _ modelled hm, ODesc kinds => modelled = true -> kinds = expected_kinds hm
-  | ITest pre steps, OTest raised after oc od =>
-      raised = exp_raised steps
+  | ITest p, OTest raised after oc od =>
+      raised = map exp_raised (phases p)
       /\ after = true
-      /\ oc = (if any_mismatch steps then Failure else Success)
-      /\ (forall t, count_nat t (map snd od) = count_nat t (map snd (wanted pre steps)))
+      /\ OutcomeOk p oc
+      /\ (forall t, count_nat t (map snd od) = count_nat t (map snd (wanted p)))
       /\ NoDup (map fst od)
-      /\ (forall n t, In (n, t) od -> exists base, base_of t (wanted pre steps) = Some base /\ Derived n base)
-      /\ (forall d, In d pre -> In d od)
+      /\ (forall n t, In (n, t) od -> exists base, base_of t (wanted p) = Some base /\ Derived n base)
+      /\ (forall d, In d (p_pre p) -> In d od)
   | _, _ => False
   end.
 
 (* ---------- well-formed inputs ---------- *)
-Definition all_details (pre : list detail) (steps : list step) : list detail :=
-  pre ++ flat_map (fun s => match s_mis s with Some ds => ds | None => [] end) steps.
+Definition all_steps (p : prog) : list step :=
+  p_setup p ++ p_body p ++ p_teardown p ++ concat (rev (p_cleanups p)).
+Definition all_details (p : prog) : list detail :=
+  p_pre p ++ flat_map (fun s => match s_mis s with Some ds => ds | None => [] end) (all_steps p).
 Definition wf (i : input) : Prop :=
   match i with
   | IRepr isb s _ _ => Forall (fun c => (c < (if isb then 256 else 1114112))%N) s
   | IDesc _ modelled _ => modelled = true      (* the harness knows how to build the matcher *)
-  | ITest pre steps =>
-      NoDup (map snd (all_details pre steps)) /\ ~ In 0 (map snd (all_details pre steps))
-      /\ NoDup (map fst pre)
+  | ITest p =>
+      NoDup (map snd (all_details p)) /\ ~ In 0 (map snd (all_details p))
+      /\ NoDup (map fst (p_pre p))
   end.
 
-Definition findings (i : input) : list nat := [].
+(* Known finding F21: RunTest._run_core returns after a failed setUp (and the cleanups) without consulting
+   force_failure, so an expectThat that mismatched in setUp before setUp raised, or in a cleanup run after
+   setUp raised, does not make the test fail: what setUp (or a later cleanup) raised is reported, a skip or
+   an expected failure included.  Delimited by: setUp raises and some executed expectThat mismatched. *)
+Definition finding_F21 (i : input) : bool :=
+  match i with
+  | ITest p => setup_raises p && expect_failed p
+  | _ => false
+  end.
+Definition findings (i : input) : list nat := if finding_F21 i then [21] else [].
